@@ -1,10 +1,13 @@
-use std::fs::{File, OpenOptions};
+#[cfg(not(mrecordlog_verif))]
+use std::fs::{read_dir as fs_read_dir, remove_file as fs_remove_file, File, OpenOptions};
 use std::io::{self, BufWriter, Read, Seek, SeekFrom, Write};
 use std::path::{Path, PathBuf};
 
 use tracing::info;
 
 use super::{FileNumber, FileTracker};
+#[cfg(mrecordlog_verif)]
+use crate::verif::fs::{read_dir as fs_read_dir, remove_file as fs_remove_file, File, OpenOptions};
 use crate::rolling::{FILE_NUM_BYTES, FRAME_NUM_BYTES};
 use crate::{BlockRead, BlockWrite, PersistAction, BLOCK_NUM_BYTES};
 
@@ -31,6 +34,16 @@ pub(crate) fn filepath(dir: &Path, file_number: &FileNumber) -> PathBuf {
     dir.join(file_number.filename())
 }
 
+#[cfg(not(mrecordlog_verif))]
+fn bufwriter_capacity() -> usize {
+    FRAME_NUM_BYTES
+}
+
+#[cfg(mrecordlog_verif)]
+fn bufwriter_capacity() -> usize {
+    crate::verif::bufwriter_capacity(FRAME_NUM_BYTES)
+}
+
 fn create_file(dir_path: &Path, file_number: &FileNumber) -> io::Result<File> {
     let new_filepath = filepath(dir_path, file_number);
     let mut file = OpenOptions::new()
@@ -46,7 +59,7 @@ impl Directory {
     /// Open a `Directory`, or create a new, empty, one. `dir_path` must exist and be a directory.
     pub fn open(dir_path: &Path) -> io::Result<Directory> {
         let mut file_numbers: Vec<u64> = Default::default();
-        for dir_entry_res in std::fs::read_dir(dir_path)? {
+        for dir_entry_res in fs_read_dir(dir_path)? {
             let dir_entry = dir_entry_res?;
             if !dir_entry.file_type()?.is_file() {
                 continue;
@@ -91,7 +104,7 @@ impl Directory {
         while let Some(file) = self.files.take_first_unused() {
             let filepath = filepath(&self.dir, &file);
             info!(file=%filepath.display(), "gc remove file");
-            std::fs::remove_file(&filepath)?;
+            fs_remove_file(&filepath)?;
         }
         Ok(())
     }
@@ -151,7 +164,7 @@ impl RollingReader {
         let offset = self.block_id * crate::BLOCK_NUM_BYTES;
         self.file.seek(SeekFrom::Start(offset as u64))?;
         Ok(RollingWriter {
-            file: BufWriter::with_capacity(FRAME_NUM_BYTES, self.file),
+            file: BufWriter::with_capacity(bufwriter_capacity(), self.file),
             offset,
             file_number: self.file_number.clone(),
             directory: self.directory,
@@ -258,7 +271,7 @@ impl BlockWrite for RollingWriter {
                     (next_file_number, file)
                 };
 
-            self.file = BufWriter::with_capacity(FRAME_NUM_BYTES, file);
+            self.file = BufWriter::with_capacity(bufwriter_capacity(), file);
             self.file_number = file_number;
             self.offset = 0;
         }
